@@ -53,6 +53,18 @@ CHECKS = {
     note="Scaled-down geometry embedded border-preservingly into the real id space; ItemStash GC threshold lowered through "
          "the OSMIUM_VERIF_STASH_GC_MIN hook; histories bounded (depth 7-14).",
     technique="TLA+ specs + TLC refinement check; spec-to-code replay of exported histories with per-call comparison"),
+ "C11": dict(
+    category="model_checking",
+    text="specs/RelMgr.tla models the relations database countdown, the sorted members databases with removed marks, the "
+         "stash, MembersDatabase::add's range walk with completion on the spot and MembersDatabaseCommon::remove, next to a "
+         "set-based model (which relation must complete at which object, what is retrievable when, what is incomplete); TLC "
+         "checks agreement over all scenarios within the bounds. Exported scenarios (exhaustive small, simulated larger) are "
+         "replayed on all eight RelationsManager instantiations; callbacks, member retrievability inside the callback, lookups "
+         "of every known id afterwards, pending count and the incomplete list are compared after every call.",
+    design_ref="DESIGN.md section 4, C11",
+    note="Bounds: <=3 relations, <=4 members, 6 member refs incl. relation-in-relation, 9 stream objects; sorted distinct "
+         "streams only; MultipolygonManager only through its RelationsManager base; output-buffer flush thresholds not varied.",
+    technique="TLA+ spec + TLC refinement check against a set-based model; spec-to-code replay of exported scenarios"),
 }
 
 NOT_APPLICABLE = {
